@@ -23,6 +23,6 @@ git -C /repo apply --check $OUT/patch.diff && echo yes
 echo "== checks against the changed tree"
 : > $OUT/checks.txt
 for i in 01 02 03 04 05 06 07 08 09 10 11 12 13 14 15 16 17 18 19; do
-  r=$(cd /verif && VERIF_REPO=$WT VERIF_NPROC=6 timeout 2400 ./check C$i --tier quick 2>&1 | grep -E "^VIOLATION|^OK|^KNOWN|harness error|^  " | head -3 | tr '\n' ' ' | cut -c1-400)
+  r=$(cd ${VERIF_HOME:-/verif} && VERIF_REPO=$WT VERIF_NPROC=6 VERIF_CACHE_KEEP=12 timeout 2400 ./check C$i --tier quick 2>&1 | grep -E "^VIOLATION|^OK|^KNOWN|harness error|^  " | head -3 | tr '\n' ' ' | cut -c1-400)
   echo "C$i: $r" | tee -a $OUT/checks.txt
 done
